@@ -4,9 +4,11 @@ package main
 
 import (
 	"bytes"
+	"crypto/ecdsa"
 	"crypto/sha256"
 	"fmt"
 	"github.com/ethereum/go-ethereum/p2p/enode"
+	"github.com/zen-eth/shisui/portalwire"
 	"math/rand"
 	"net"
 	"sort"
@@ -179,5 +181,99 @@ func runContentLookup(o *Out, r *rand.Rand, thorough bool, _ []string) {
 		for _, nd := range nodes {
 			nd.stop()
 		}
+	}
+	runNodeLookupNet(o, r, thorough)
+}
+
+// runNodeLookupNet: the real node lookup (PortalProtocol.Lookup, FINDNODES over the wire) in the situation where the asker's
+// own routing table has no room for what it hears: asker A knows a real peer B and silent nodes that fill the bucket B is
+// in (and, in some rounds, its replacement list as well); B knows X, which belongs in that same bucket of A. A looks up X.
+// Whatever A's table does with X, B named it, so the lookup has seen it, and nothing is closer to X than X.
+func runNodeLookupNet(o *Out, r *rand.Rand, thorough bool) {
+	rounds := 3
+	if thorough {
+		rounds = 12
+	}
+	for round := 0; round < rounds; round++ {
+		mn := newMemNet()
+		ka := keyFromSeed(r)
+		aID := enode.PubkeyToIDV4(&ka.PublicKey)
+		// B and X in A's farthest bucket
+		farKey := func(cond func(id enode.ID) bool) *ecdsa.PrivateKey {
+			for {
+				k := keyFromSeed(r)
+				id := enode.PubkeyToIDV4(&k.PublicKey)
+				if enode.LogDist(aID, id) == 256 && cond(id) {
+					return k
+				}
+			}
+		}
+		kb := farKey(func(enode.ID) bool { return true })
+		bID := enode.PubkeyToIDV4(&kb.PublicKey)
+		kx := farKey(func(id enode.ID) bool { return id != bID })
+		x := signRec(kx, net.IP{34, 31, byte(round), 9}, 9990, 1)
+		xID := x.ID()
+		a := startNode(mn, r, nodeOpts{ip: net.IP{34, 30, byte(round), 1}, port: 9980, utpLimit: 10, key: ka})
+		b := startNode(mn, r, nodeOpts{ip: net.IP{34, 30, byte(round), 2}, port: 9981, utpLimit: 10, key: kb})
+		bNode := b.p.Self()
+		b.p.VerifTable().VerifAddFoundNode(x, true)
+		a.p.VerifTable().VerifAddFoundNode(bNode, true)
+		// fillers: 0 (room left), 15 (bucket exactly full) or 25 (replacement list full too); all farther from X than B is, so
+		// that B is among the first asked
+		nFill := []int{15, 25, 0}[round%3]
+		for i := 0; i < nFill; i++ {
+			kf := farKey(func(id enode.ID) bool { return enode.DistCmp(xID, bID, id) < 0 })
+			f := signRec(kf, net.IP{35, byte(round), byte(i), 7}, 9000+i, 1)
+			a.p.VerifTable().VerifAddFoundNode(f, false)
+		}
+		named := 0
+		if ans, err := a.p.VerifFindNodes(bNode, portalwire.VerifLookupDistances(xID, bID)); err == nil {
+			for _, n := range ans {
+				if n.ID() == xID {
+					named = 1
+				}
+			}
+		}
+		inTable := 0
+		for _, n := range a.p.VerifTable().VerifNodeList() {
+			if n.ID() == xID {
+				inTable = 1
+			}
+		}
+		done := make(chan []*enode.Node, 1)
+		go func() {
+			defer func() {
+				if rec := recover(); rec != nil {
+					done <- nil
+				}
+			}()
+			done <- a.p.Lookup(xID)
+		}()
+		out := "wedged"
+		select {
+		case res := <-done:
+			sorted, distinct, self, first := 1, 1, 0, 0
+			seen := map[enode.ID]bool{}
+			for i, n := range res {
+				if i > 0 && enode.DistCmp(xID, res[i-1].ID(), n.ID()) > 0 {
+					sorted = 0
+				}
+				if seen[n.ID()] {
+					distinct = 0
+				}
+				seen[n.ID()] = true
+				if n.ID() == aID {
+					self = 1
+				}
+			}
+			if len(res) > 0 && res[0].ID() == xID {
+				first = 1
+			}
+			out = fmt.Sprintf("n=%d sorted=%d distinct=%d self=%d target_first=%d", len(res), sorted, distinct, self, first)
+		case <-time.After(90 * time.Second):
+		}
+		o.Case(fmt.Sprintf("nlookup fillers=%d named=%d known_before=%d", nFill, named, inTable), out)
+		a.stop()
+		b.stop()
 	}
 }
